@@ -208,7 +208,7 @@ func c30Tail(s []connectivity.State) []connectivity.State {
 
 func TestVerifC30CSM(t *testing.T) {
 	r := vlib.Start(t, "C30")
-	n := r.N(1500, 20000)
+	n := r.N(1500, 12000)
 	for i := 0; i < n; i++ {
 		if !r.Want("csm", i) {
 			continue
